@@ -557,10 +557,17 @@ def assign_target(st, tgt, val):
 def _frame_ok(st, frame, ref, key, contents):
     targets, threshold = frame
     ok = [ref >= threshold]
-    for (kind, k, r) in targets:
+    for tgt in targets:
+        kind, k, r = tgt[0], tgt[1], tgt[2]
         if contents:
             if kind == 'contents':
                 ok.append(ref == r)
+                if len(tgt) > 3 and st.yielded:
+                    try:
+                        now = eval_spec(st, tgt[3], tgt[4])
+                        ok.append(ref == now.z)
+                    except Undecided:
+                        pass
             elif kind == 'fresh':
                 ok.append(ref >= st.fn_alloc0)
         else:
